@@ -543,7 +543,6 @@ func init() {
 	})
 }
 
-
 // isCounterValue: x denotes the current value of a reference/link counter field (the given one, or
 // any field named referenceCount/linkCount when counter == nil): the field itself, a Load()/Add()
 // on it (atomic counters), or a local every assignment of which is one of those.
